@@ -541,6 +541,9 @@ func (s *sim) afterOp() {
 			if ref.getStreamsCnt() < 0 {
 				cls = "negative"
 			}
+			if ch.refreshes > 0 {
+				cls += "-after-refresh"
+			}
 			s.fail("C02.count", cls, "channel %d: balancer counts %d active streams, harness has %d calls in flight", ch.id, ref.getStreamsCnt(), ch.inflight)
 		}
 	}
@@ -601,6 +604,12 @@ func (s *sim) resolve(empty bool, cfg *pb.ApiConfig, withCfg bool) {
 	for _, ch := range s.pool() {
 		before[ch.conn] = ch.conn.connects
 	}
+	replBefore := map[*simConn]int{}
+	for _, ch := range s.chans {
+		if ch.repl != nil && (ch.alive || ch.suspended) {
+			replBefore[ch.repl] = ch.repl.connects
+		}
+	}
 	poolBefore := len(s.pool())
 	if poolBefore == 0 || empty || s.failNext > 0 {
 		s.hit("C06.hard-state")
@@ -660,6 +669,15 @@ func (s *sim) resolve(empty bool, cfg *pb.ApiConfig, withCfg bool) {
 		}
 		if _, ok := before[ch.conn]; !ok && ch.conn.connects == 0 {
 			s.fail("C20.connect", "new-conn", "new channel %d conn %v was never asked to connect", ch.id, ch.conn)
+		}
+	}
+	for r, c0 := range replBefore {
+		s.hit("C20.replacement-in-flight")
+		if r.addrs != s.addrs {
+			s.fail("C20.addr", "replacement-in-flight", "after the resolver update the replacement %v of a refresh in flight still has [%s], latest is [%s]", r, r.addrs, s.addrs)
+		}
+		if r.connects <= c0 {
+			s.fail("C20.connect", "replacement-in-flight", "the replacement %v of a refresh in flight was not asked to (re)connect by the resolver update", r)
 		}
 	}
 	if len(s.rmInOp) > 0 {
@@ -1175,7 +1193,7 @@ func (s *sim) keyedRules(p *simPub, isCur bool, key string, home *simChan, ch *s
 				s.hit("C08.sticky-after-refresh")
 			}
 			if ch != si {
-				s.fail("C08.sticky", "", "key %q stand-in ch%d still READY (home ch%d still down) but got %s", key, si.id, home.id, simChID(ch))
+				s.fail("C08.sticky", map[bool]string{true: "after-refresh", false: ""}[si.refreshes > 0], "key %q stand-in ch%d still READY (home ch%d still down) but got %s", key, si.id, home.id, simChID(ch))
 			}
 		}
 	} else if ch != nil && ch != home && !ch.ready() {
@@ -1576,6 +1594,7 @@ func simBias(prop string, rng *vRand) map[string]bool {
 		pick("homedown", 50)
 		pick("nofallback", 40)
 		pick("rebind-macro", 35)
+		pick("shutdown", 30)
 		pick("rr", 15)
 	case "C02":
 		pick("load", 100)
@@ -1595,6 +1614,7 @@ func simBias(prop string, rng *vRand) map[string]bool {
 		pick("shutdown", 50)
 		pick("refresh", 50)
 		pick("weird-reports", 80)
+		pick("orphan-refresh", 35)
 	case "C05":
 		pick("hostile", 85)
 		pick("refresh", 60)
@@ -1633,6 +1653,7 @@ func simBias(prop string, rng *vRand) map[string]bool {
 		pick("refresh", 50)
 		pick("stale", 30)
 		pick("rebind-macro", 30)
+		pick("shutdown", 25)
 	case "C09":
 		pick("rr", 100)
 		pick("keys", 50)
@@ -1643,6 +1664,7 @@ func simBias(prop string, rng *vRand) map[string]bool {
 		pick("resolve", 100)
 		pick("refresh", 70)
 		pick("orphan-refresh", 40)
+		pick("emptyresolve", 30)
 		pick("saturate", 50)
 		pick("shutdown", 25)
 		pick("factoryfail", 20)
@@ -2225,10 +2247,16 @@ func TestVerifPoolSim(t *testing.T) {
 	out := vNewOut(env, "poolsim")
 	cases := env.vCases(simCaseCount(env))
 	vStuckAfter = 8 * time.Second
-	nStuck := 0
+	nStuck, nDead := 0, 0
 	for _, idx := range cases {
 		if nStuck >= 2 {
 			out.inconclusive("batch stopped early: operations left spinning")
+			break
+		}
+		if nDead >= 8 {
+			// every deadlocked history costs the confirmation window and leaves a
+			// goroutine behind; eight witnesses are enough
+			out.inconclusive("batch stopped early: histories ended in a deadlock / held lock")
 			break
 		}
 		s := simRunCase(env, out, idx)
@@ -2243,6 +2271,9 @@ func TestVerifPoolSim(t *testing.T) {
 		out.Evaluations++
 		if s.stuck {
 			nStuck++
+		}
+		if s.dead && s.viol != nil && (s.viol.Rule == "C06.deadlock" || s.viol.Rule == "C06.lock-held") {
+			nDead++
 		}
 		if s.hostile && s.opCount >= 10 {
 			s.hits["C05.hostile-case"]++
@@ -2269,6 +2300,10 @@ func TestVerifPoolSim(t *testing.T) {
 		if s.viol != nil {
 			v := *s.viol
 			v.Log = s.log
+			if env.Prop == "C07" && strings.Contains(v.Sig, "after-refresh") && (strings.HasPrefix(v.Rule, "C01.") || v.Rule == "C02.count" || strings.HasPrefix(v.Rule, "C08.")) {
+				// C07: at the swap the replacement takes over the channel's bound keys, stand-ins and active streams
+				v = vViol{Sig: "C07.takeover:" + v.Sig, Rule: "C07.takeover", Detail: "after a completed refresh the channel's bound keys / active streams did not follow the replacement: " + v.Detail, Case: v.Case, Log: v.Log}
+			}
 			if env.Prop == "C09" && s.rr && s.hits["C09.rr-pick"]+s.hits["C09.rr-wait"] > 0 && (v.Rule == "C06.lock-held" || v.Rule == "C06.deadlock" || v.Rule == "C06.blocked") {
 				// C09: "calls that are not BIND are unaffected by the strategy" - after round-robin BIND picks the balancer is left locked / an operation that may not wait is blocked
 				v = vViol{Sig: "C09.others-unaffected:" + v.Sig, Rule: "C09.others-unaffected", Detail: "under ROUND_ROBIN, after BIND picks, a lock is left held or an operation that may not wait is blocked: " + v.Detail, Case: v.Case, Log: v.Log}
